@@ -278,7 +278,7 @@ def gen_item_C16(rng, idx, tier):
     case = gen.gen_compute_case(rng, maxpix=36 if tier == 'quick' else 60)
     case['dtype'] = 'float64'
     case['layout'] = 'C'
-    if case.get('adj') == 'diag':
+    if case.get('adj') != 'grid':
         case['adj'] = 'grid'
     case['crits'] = [c for c in case.get('crits', []) if c[0] != 'sum']
     if rng.random() < 0.6:
